@@ -368,9 +368,11 @@ def cb(b):
             return ("const", bytes(x[1] for x in xs))
         return ("arr", xs)
     if k in ("H", "MD5"):
-        return (k, tuple(cb(x) for x in b[1]))
+        return (k, _flat(cb(x) for x in b[1]))
     if k == "HMAC":
-        return ("HMAC", cb(b[1]), tuple(cb(x) for x in b[2]))
+        return ("HMAC", cb(b[1]), _flat(cb(x) for x in b[2]))
+    if k == "cat":
+        return ("cat", _flat(cb(x) for x in b[1]))
     if k == "text":
         return ("text", cb(b[1]))
     if k in ("le", "be"):
@@ -380,6 +382,22 @@ def cb(b):
     if k == "F":
         return ("F", cb(b[1]), b[2])
     return b
+
+
+def _flat(xs):
+    """a message assembled in a buffer and hashed in one call is the same transcript as the
+    pieces fed one by one"""
+    out = []
+    for x in xs:
+        if x[0] == "cat":
+            out.extend(x[1])
+        else:
+            out.append(x)
+    return tuple(out)
+
+
+VEC_EMPTY = ("std::vec::Vec::<T>::new", "std::vec::Vec::<T>::with_capacity")
+VEC_APPEND = ("std::vec::Vec::<T, A>::extend_from_slice",)
 
 
 def bexpr(ctx, se, t, depth=0):
@@ -406,6 +424,14 @@ def _bexpr(ctx, se, t, depth=0):
         return ("arr", tuple(bexpr(ctx, se, x, depth + 1) for x in t[4]))
     if k == "field":
         return ("F", bexpr(ctx, se, t[1], depth + 1), t[2])
+    if k == "after" and is_call(t[1]) and t[1][1] in VEC_APPEND and t[2] == 0:
+        # buffer.extend_from_slice(x): the buffer's bytes followed by x's
+        base = bexpr(ctx, se, strip(t[3]), depth + 1)
+        if base[0] == "cat":
+            return ("cat", base[1] + (bexpr(ctx, se, strip(t[1][2][1]), depth + 1),))
+        return ("raw", "append to " + show(t[3], maxdepth=3))
+    if k == "call" and t[1] in VEC_EMPTY:
+        return ("cat", ())
     if k == "call":
         name = t[1]
         if name in IDENT_CALLS:
@@ -919,9 +945,13 @@ def proof_decisions(ctx, se):
         same = c["rhs_ty"] is None or c["rhs_ty"].s == c["self_ty"].s
         g = compare_gate(ctx, se, c)
         out.append({"ops": [canon(ctx, se, a) for a in c["args"]], "whole": (ok and same, why), "bb": c["bb"], "eq_edge": g[1] if g else None, "ne_edge": g[2] if g else None, "err_fields": None, "via": "inline", "term": c["term"], "op": c["op"]})
+    inline_bbs = {d["bb"] for d in out}
     for bb, info in se.term_info.items():
-        if info.get("k") != "call" or info["name"] not in ctx.fb.bodies:
+        if info.get("k") != "call" or info["name"] not in ctx.fb.bodies or bb in inline_bbs:
             continue
+        b_ = ctx.fb.bodies[info["name"]]
+        if b_.derived() or b_.d.get("impl_trait") in ("std::cmp::PartialEq", "core::cmp::PartialEq"):
+            continue  # `==` itself (a PartialEq impl) is an inline comparison, not a helper
         vh = verdict_helper(ctx, info["name"])
         if vh is None:
             continue
@@ -951,3 +981,69 @@ def proof_decisions(ctx, se):
         ef = {n: canon(ctx, se, a[k - 1]) for n, k in vh["err_fields"].items()} if vh["kind"] == "result" else None
         out.append({"ops": ops, "whole": (True, vh["why"] + " (in %s)" % info["name"]), "bb": bb, "eq_edge": eq_edge, "ne_edge": ne_edge, "err_fields": ef, "via": info["name"], "term": info["term"], "op": "eq"})
     return out
+
+
+# ----------------------------------------------------------------------------- value-level decisions
+
+def map_term(t, f):
+    """rebuild t bottom-up, applying f to every sub-term (f returns a replacement or None)"""
+    if not isinstance(t, tuple) or not t or not isinstance(t[0], str):
+        return t
+    r = f(t)
+    if r is not None:
+        return r
+    out = [t[0]]
+    for x in t[1:]:
+        if isinstance(x, tuple) and x and isinstance(x[0], str):
+            out.append(map_term(x, f))
+        elif isinstance(x, tuple):
+            out.append(tuple(map_term(y, f) if isinstance(y, tuple) and y and isinstance(y[0], str) else y for y in x))
+        else:
+            out.append(x)
+    return tuple(out)
+
+
+def closure_value(ctx, cl, args=()):
+    """value of calling the closure aggregate `cl` (captures substituted; `args` are the call
+    arguments after the environment), or None when the body is not a straight-line value"""
+    if not (cl[0] == "agg" and cl[1] == "closure"):
+        return None
+    cse = ctx.flat.run(cl[2])
+    if cse is None or cfg.back_edges(cse.body):
+        return None
+    caps = cl[4]
+
+    def f(t):
+        if t[0] == "field" and isinstance(t[2], int) and t[1] in (("param", 1), ("deref", ("param", 1))) and t[2] < len(caps):
+            return caps[t[2]]
+        if t[0] == "param" and t[1] >= 2 and t[1] - 2 < len(args):
+            return args[t[1] - 2]
+        if t[0] == "param" and t[1] == 1:
+            return ("closure-env",)
+        return None
+
+    r = map_term(cse.ret, f)
+    if any(x == ("closure-env",) or x[0] in ("phi", "param") and x[0] == "phi" for x in walk(r)):
+        return None
+    return r
+
+
+def value_select(ctx, se, t):
+    """combinator spellings of `if c { Ok(x) } else { Err(e) }`:
+    c.then(|| x).ok_or(e), c.then_some(x).ok_or(e), ...ok_or_else(|| e).
+    Returns (c, x, e) or None."""
+    t = strip(t)
+    if not is_call(t):
+        return None
+    short = t[1].split("::")[-1]
+    if t[1].startswith("std::option::Option::<T>::") and short in ("ok_or", "ok_or_else"):
+        opt = strip(t[2][0])
+        e = t[2][1] if short == "ok_or" else closure_value(ctx, t[2][1])
+        if e is None or not is_call(opt) or not opt[1].startswith("core::bool::<impl bool>::"):
+            return None
+        s2 = opt[1].split("::")[-1]
+        x = closure_value(ctx, opt[2][1]) if s2 == "then" else opt[2][1] if s2 == "then_some" else None
+        if x is None:
+            return None
+        return opt[2][0], x, e
+    return None
